@@ -367,6 +367,45 @@ theorem classical_channel_preserves_simplex {d e : ℕ} (M : Fin e → Fin d →
     (hp : ∀ i, 0 ≤ p i) (hsum : ∑ i, p i = 1) : (∀ i, 0 ≤ pushforward M p i) ∧ ∑ i, pushforward M p i = 1 :=
   ⟨pushforward_nonneg hM hp, by rw [pushforward_sum hM, hsum]⟩
 
+/-- extension of a `Fin`-indexed matrix / vector to `ℕ` indices (zero outside), the indexing of the channel model -/
+noncomputable def natM {d e : ℕ} (M : Fin e → Fin d → ℝ) (i j : ℕ) : ℝ := if h : i < e ∧ j < d then M ⟨i, h.1⟩ ⟨j, h.2⟩ else 0
+noncomputable def natV {d : ℕ} (p : Fin d → ℝ) (j : ℕ) : ℝ := if h : j < d then p ⟨j, h⟩ else 0
+
+/-- **the classical channels of the monotonicity theorems are channels of the Kraus model**: `apply_kraus_op` with the
+measure-and-prepare Kraus set `K_(i,j) = √M_ij |i⟩⟨j|` maps the diagonal state `diag(p)` to the diagonal state `diag(pushforward M p)`
+(`applyKraus` is the model of `numqi.channel.apply_kraus_op`, tied by op `apk`; the harness executes this instance, counter `classical-channel`). -/
+theorem applyKraus_classical_channel {d e : ℕ} (M : Fin e → Fin d → ℝ) (hM : ColStochastic M) (p : Fin d → ℝ) (a b : Fin e) :
+    applyKraus (e * d) d (classicalKraus d (natM M)) (fun i j => if i = j then natV p i else 0) a b
+      = if a = b then pushforward M p a else 0 := by
+  have hnn : ∀ i j, 0 ≤ natM M i j := fun i j => by
+    unfold natM; split
+    · exact hM.1 _ _
+    · exact le_refl _
+  rw [applyKraus_classical d e (natM M) hnn (natV p) a b a.2 b.2]
+  by_cases hab : a = b
+  · subst hab
+    rw [if_pos rfl, if_pos rfl]
+    unfold pushforward
+    rw [← Fin.sum_univ_eq_sum_range (fun j => natM M a j * natV p j) d]
+    refine sum_congr rfl fun j _ => ?_
+    simp [natM, natV, a.2, j.2]
+  · rw [if_neg (fun h => hab (Fin.ext h)), if_neg hab]
+
+/-- … and that Kraus set is **trace preserving** exactly because the columns of `M` sum to one: `Σ_s K_s† K_s = 1` -/
+theorem classical_channel_trace_preserving {d e : ℕ} (M : Fin e → Fin d → ℝ) (hM : ColStochastic M) (i j : Fin d) :
+    krausGram (e * d) e (classicalKraus d (natM M)) i j = if i = j then 1 else 0 := by
+  have hnn : ∀ i j, 0 ≤ natM M i j := fun i j => by
+    unfold natM; split
+    · exact hM.1 _ _
+    · exact le_refl _
+  rw [krausGram_classical d e (natM M) hnn i j i.2 j.2]
+  by_cases hij : i = j
+  · subst hij
+    rw [if_pos rfl, if_pos rfl, ← hM.2 i, ← Fin.sum_univ_eq_sum_range (fun a => natM M a i) e]
+    refine sum_congr rfl fun a _ => ?_
+    simp [natM, a.2, i.2]
+  · rw [if_neg (fun h => hij (Fin.ext h)), if_neg hij]
+
 /-- **`0 ≤ S_α(ρ) ≤ log d`** for every order `α > 0`, `α ≠ 1` and every probability vector of eigenvalues. -/
 theorem renyi_range {d : ℕ} (hd : 0 < d) (α : ℝ) (h0 : 0 < α) (hne : α ≠ 1) (p : Fin d → ℝ) (hp : ∀ i, 0 ≤ p i)
     (hsum : ∑ i, p i = 1) :
@@ -446,7 +485,13 @@ theorem cutCountBelow_sorted (eps : ℚ) (evl : List ℚ) (hs : evl.Pairwise (·
     omega
   omega
 
-/-- **purity** is `tr(ρ† ρ)` … -/
+/-- on a Hermitian matrix (the documented domain of `get_purity`) `vdot(ρ,ρ)` is `tr(ρ·ρ)` — the alternative kept as a comment in the source -/
+theorem purity_hermitian (n : ℕ) (ρ : ℕ → ℕ → R) (hH : ∀ i j, star (ρ j i) = ρ i j) :
+    purity n ρ = ∑ i ∈ range n, ∑ j ∈ range n, ρ i j * ρ j i := by
+  simp only [purity, sumRange_eq_sum, conj_eq_star]
+  exact sum_congr rfl fun i _ => sum_congr rfl fun j _ => by rw [hH j i, mul_comm]
+
+/-- bookkeeping: **purity** is `tr(ρ† ρ)` (order of summation) -/
 theorem purity_eq_trace (n : ℕ) (ρ : ℕ → ℕ → R) :
     purity n ρ = ∑ j ∈ range n, ∑ i ∈ range n, star (ρ i j) * ρ i j := by
   simp only [purity, sumRange_eq_sum, conj_eq_star]
